@@ -315,6 +315,17 @@ fn entities(p: &Prog) -> Vec<(usize, Kind)> {
             }
         }
     }
+    // methods: the name lives in the struct's scope, parameters and locals in the method's own scope
+    for (si, s) in p.structs.iter().enumerate() {
+        for (mi, m) in s.methods.iter().enumerate() {
+            let scope_index = 10_000 + si * 100 + mi;
+            v.push((m.name, Kind::Field(si)));
+            for prm in &m.params {
+                v.push((prm.name, Kind::Param(scope_index)));
+            }
+            collect_locals(&m.body, scope_index, &mut v);
+        }
+    }
     for (i, f) in p.funcs.iter().enumerate() {
         if !v.iter().any(|(n, k)| *n == f.name && *k == Kind::Func) {
             v.push((f.name, Kind::Func));
